@@ -255,6 +255,7 @@ theorem pingLoopFrom_failed (os : List TickOutcome) : ∀ (base k : Nat),
       obtain ⟨o', h, hne⟩ := hk
       simp at h
       subst h
+      have hf : Facts.C43.pingLoopFailsOnPingError = true := rfl
       cases o <;> simp_all [pingLoopFrom]
     | succ j =>
       have h0 := hprev 0 (by omega)
